@@ -139,6 +139,11 @@ func plans(id, tier string) (Plan, bool) {
 			{Pkg: pkgV2, Harness: "c12_trees", Shards: pick(4, 16)},
 			{Pkg: pkgV2, Harness: "c12_assets", Shards: 1},
 		}}, true
+	case "C17":
+		return Plan{Level: "exploration", Jobs: []Job{
+			{Pkg: pkgTok, Harness: "c17_tokens", Shards: pick(4, 16)},
+			{Pkg: pkgSS, Harness: "c17_candidates", Shards: 16},
+		}}, true
 	case "C20":
 		return Plan{Level: "model_checking", Jobs: []Job{
 			{Pkg: pkgSets, Harness: "c20_stringset", Shards: pick(4, 8)},
